@@ -264,3 +264,34 @@ MC_Occupied == %s
         return res, acc
     finally:
         shutil.rmtree(d, ignore_errors=True)
+
+
+def run_purgeops_inductive(cmd='restore', mutant='none', timeout=600):
+    """Apalache: Init => IndInv, IndInv /\\ Next => IndInv', IndInv => Safety for PurgeOps (spec/MC_PurgeOpsInd.tla.tmpl).
+    -> {'ok': bool, 'failed_phase': None | 'base' | 'step' | 'safety' | 'tool', 'wall': seconds, 'detail': str}"""
+    import os, shutil, subprocess, tempfile, time
+    t0 = time.time()
+    d = tempfile.mkdtemp(prefix='vapa-', dir='/dev/shm' if os.path.isdir('/dev/shm') else None)
+    try:
+        shutil.copy(os.path.join(tlc.SPEC_DIR, 'PurgeOps.tla'), d)
+        name = 'MC_PurgeOpsInd_%s_%s' % (cmd, mutant)
+        text = open(os.path.join(tlc.SPEC_DIR, 'MC_PurgeOpsInd.tla.tmpl')).read().replace('@CMD@', cmd).replace('@MUTANT@', mutant)
+        with open(os.path.join(d, name + '.tla'), 'w') as f:
+            f.write(text)
+        for phase, args in (('base', ['--init=Init', '--inv=IndInv', '--length=0']),
+                            ('step', ['--init=IndInit', '--inv=IndInv', '--length=1']),
+                            ('safety', ['--init=IndInit', '--inv=Safety', '--length=0'])):
+            try:
+                p = subprocess.run(['apalache-mc', 'check'] + args + ['--out-dir=' + os.path.join(d, 'out'), name + '.tla'],
+                                   cwd=d, stdout=subprocess.PIPE, stderr=subprocess.STDOUT, timeout=timeout)
+            except (subprocess.TimeoutExpired, OSError) as e:
+                return {'ok': False, 'failed_phase': 'tool', 'wall': time.time() - t0, 'detail': repr(e)}
+            out = p.stdout.decode('utf-8', 'replace')
+            if 'EXITCODE: OK' in out and 'The outcome is: NoError' in out:
+                continue
+            if 'The outcome is: Error' in out:
+                return {'ok': False, 'failed_phase': phase, 'wall': time.time() - t0, 'detail': out[-1500:]}
+            return {'ok': False, 'failed_phase': 'tool', 'wall': time.time() - t0, 'detail': out[-1500:]}
+        return {'ok': True, 'failed_phase': None, 'wall': time.time() - t0, 'detail': ''}
+    finally:
+        shutil.rmtree(d, ignore_errors=True)
